@@ -21,7 +21,8 @@ class ShapeMapInstanceTracker(AbstractInstanceTracker):
         for a_node in an_item.node_selector.get_target_nodes():
             if a_node not in self._instances_dict:
                 self._instances_dict[a_node] = []
-            self._instances_dict[a_node].append(an_item.shape_label)
+            if an_item.shape_label not in self._instances_dict[a_node]:  # A selector may return a node several times
+                self._instances_dict[a_node].append(an_item.shape_label)
 
     def _specific_disambiguator_prefix(self):
         return "custom_"
